@@ -71,7 +71,7 @@ def expressions(tier):
         for stop in range(-4, 5):
             for step in (-3, -2, -1, 1, 2, 3):
                 out += [("range", ("in_range", i, (start, stop, step))) for i in items]
-    elems = [R("a"), R("b"), L(0), L(3), ("add", R("a"), R("b")), ("neg", R("a"))]
+    elems = [R("a"), R("b"), L(0), L(1), L(2), L(3), ("add", R("a"), R("b")), ("neg", R("a"))]
     seq_items = [R("a"), R("b"), ("sub", R("a"), R("b"))]
     for n in range(0, 4):
         for combo in itertools.product(elems, repeat=n):
